@@ -86,6 +86,14 @@ def make_doc(rng):
     g = canon.DocGen(rng, hyphen=False, comments=rng.random() < 0.4, max_entries=5, quoted=False)
     shape = rng.choice(["bare", "bare", "bare", "formals", "lambda", "with", "assert", "call", "formals+call"])
     d = g.doc(wrappers=shape, layers=rng.choice([0, 0, 1, 2, 3]) if shape == "bare" else rng.choice([0, 0, 1]))
+    if rng.random() < 0.08:
+        # dotted bindings that share a prefix of three and more segments
+        root = rng.choice(["deep", "svc"])
+        for lf in rng.sample(["x", "y", "z", "w"], rng.choice([2, 3])):
+            d.target.entries.append(canon.Entry("attrpath", [root, "b", "c", lf], value=g.value()))
+        if rng.random() < 0.5:
+            d.target.entries.append(canon.Entry("attrpath", [root, "b", "d", "e", "f"], value=g.value()))
+            d.target.entries.append(canon.Entry("attrpath", [root, "b", "d", "e", "g"], value=g.value()))
     return canon.render(d)
 
 
